@@ -118,6 +118,9 @@ Inductive fault : Set :=
 | FHostilePanic        (* ... with a value whose own Error()/String() method panics (typed nil pointer, method that
                           panics): formatting the recovered value can raise a second panic.  Server side: the service
                           function; client side: the function provided through reverse.Provider *)
+| FNestedHostilePanic  (* ... with a value whose Error() panics with a value whose Error() panics AGAIN (or with itself):
+                          fmt.Sprintf gives up on the nested panic and re-panics, so only a recover around the
+                          formatting itself (PanicError.Error/String, since 5f07f22) keeps the second panic in *)
 | FInvokePluginPanic   (* an invoke plugin (Service.Use, NextInvokeHandler chain) panic *)
 | FIOPluginPanic       (* an IO plugin (Service.Use, NextIOHandler chain) panic *)
 | FMissingPanic        (* the missing-method handler panic *)
@@ -137,11 +140,11 @@ Record cell : Set := { c_tr : transport; c_side : side; c_pool : bool; c_fault :
 Definition transports := [TMock; THttp; TFastHttp; TTcp; TUnix; TWebsocket; TUdp].
 Definition sides := [Server; Client].
 Definition pools := [false; true].
-Definition faults := [FServicePanic; FHostilePanic; FInvokePluginPanic; FIOPluginPanic; FMissingPanic; FDecodeError;
+Definition faults := [FServicePanic; FHostilePanic; FNestedHostilePanic; FInvokePluginPanic; FIOPluginPanic; FMissingPanic; FDecodeError;
   FDecodePanic; FFrameShort; FFrameBadCrc; FFrameLength; FOversizeRequest; FOversizeResponse;
   FBadPayload; FProviderPanic].
 
-(* the whole product: 7 transports x 2 sides x pool off/on x 14 fault classes = 392 *)
+(* the whole product: 7 transports x 2 sides x pool off/on x 15 fault classes = 420 *)
 Definition all_cells : list cell :=
   flat_map (fun tr => flat_map (fun sd => flat_map (fun p => map (fun f =>
     {| c_tr := tr; c_side := sd; c_pool := p; c_fault := f |}) faults) pools) sides) transports.
@@ -156,7 +159,8 @@ Definition side_eqb (a b : side) : bool :=
   match a, b with Server, Server | Client, Client => true | _, _ => false end.
 Definition fault_eqb (a b : fault) : bool :=
   match a, b with
-  | FServicePanic, FServicePanic | FHostilePanic, FHostilePanic | FInvokePluginPanic, FInvokePluginPanic | FIOPluginPanic, FIOPluginPanic
+  | FServicePanic, FServicePanic | FHostilePanic, FHostilePanic | FNestedHostilePanic, FNestedHostilePanic
+  | FInvokePluginPanic, FInvokePluginPanic | FIOPluginPanic, FIOPluginPanic
   | FMissingPanic, FMissingPanic | FDecodeError, FDecodeError | FDecodePanic, FDecodePanic
   | FFrameShort, FFrameShort | FFrameBadCrc, FFrameBadCrc | FFrameLength, FFrameLength
   | FOversizeRequest, FOversizeRequest | FOversizeResponse, FOversizeResponse
@@ -183,7 +187,7 @@ Definition applicable (c : cell) : bool :=
   let tr := c_tr c in
   (if c_pool c then has_pool tr && side_eqb (c_side c) Server else true) &&
   match c_side c, c_fault c with
-  | Server, (FServicePanic | FHostilePanic | FInvokePluginPanic | FIOPluginPanic | FMissingPanic | FDecodeError | FDecodePanic) => true
+  | Server, (FServicePanic | FHostilePanic | FNestedHostilePanic | FInvokePluginPanic | FIOPluginPanic | FMissingPanic | FDecodeError | FDecodePanic) => true
   | Server, FFrameShort => framed tr
   | Server, FFrameBadCrc => has_crc tr
   | Server, FFrameLength => has_wire tr           (* http/fasthttp: Content-Length larger than the body sent *)
@@ -195,7 +199,7 @@ Definition applicable (c : cell) : bool :=
   | Client, FFrameLength => has_wire tr
   | Client, FOversizeRequest => transport_eqb tr TUdp
   | Client, FBadPayload => has_wire tr
-  | Client, (FProviderPanic | FHostilePanic) => true
+  | Client, (FProviderPanic | FHostilePanic | FNestedHostilePanic) => true
   | Client, _ => false
   end.
 
@@ -295,7 +299,7 @@ Definition behaviour_of (c : cell) : behaviour :=
   let tr := c_tr c in
   let p := pkg_of tr in
   match c_side c, c_fault c with
-  | Server, (FServicePanic | FHostilePanic) => server_panic tr (c_pool c) "ext:reflect.Value.Call"
+  | Server, (FServicePanic | FHostilePanic | FNestedHostilePanic) => server_panic tr (c_pool c) "ext:reflect.Value.Call"
   | Server, FMissingPanic => server_panic tr (c_pool c) "dyn:core.missingMethod"
   | Server, FInvokePluginPanic => server_panic tr (c_pool c) "dyn:core.NextInvokeHandler"
   | Server, FIOPluginPanic => server_panic tr (c_pool c) "dyn:core.NextIOHandler"
@@ -346,7 +350,7 @@ Definition behaviour_of (c : cell) : behaviour :=
          before anything is queued: the Send goroutine never sees it *)
       ErrorPath CallError
   | Client, FBadPayload => ErrorPath CallError         (* ClientCodec.Decode returns an error to the caller *)
-  | Client, (FProviderPanic | FHostilePanic) =>
+  | Client, (FProviderPanic | FHostilePanic | FNestedHostilePanic) =>
       Panics {| g_root := RGo "plugins/reverse.Provider.dispatch" "plugins/reverse.Provider.dispatch$1";
                 g_chain := [("plugins/reverse.Provider.dispatch$1", "plugins/reverse.Provider.process");
                             ("plugins/reverse.Provider.process", "dyn:core.NextInvokeHandler");
@@ -419,6 +423,7 @@ Definition scope_of (f : string) : option scope :=
   if existsb (String.eqb b) [
        "core.Service.Process";               (* err = NewPanicError(p): encoded as the call's error *)
        "core.Service.Handle";
+       "core.PanicError.Error"; "core.PanicError.String";   (* falls back to the value's type name: still that call's error text *)
        "plugins/reverse.Provider.process";   (* returnValue with the error text *)
        "mock.Transport.Transport";
        "http.Handler.ServeHTTP"; "http.Handler.ServeFastHTTP"; "mock.Handler.Handler"; "mock.agent.Handler"
@@ -480,9 +485,12 @@ Definition panic_verdict (t : tbl) (g : gspec) : verdict :=
    Formatting calls the value's own Error()/String() method, which may panic in turn.  That is
    harmless only while PanicError formats through fmt.Sprintf and nothing else: fmt recovers a
    panic of an Error()/String() method and prints a placeholder ("<nil>" for a nil receiver).
-   (fmt gives up on a SECOND nested panic — a value whose Error() panics with a value whose
-   Error() panics again; net/http's own recover does not survive such a value either; such
-   values are outside this model, see the check's probe.) *)
+   fmt gives up on a SECOND nested panic — a value whose Error() panics with a value whose
+   Error() panics again, or with itself — and re-panics out of Sprintf (net/http's own recover
+   handler dies of such a value while logging it).  Against those only a recover inside
+   PanicError.Error/String helps: [format_total].  (Without it, further formatting sites
+   follow — the handlers' send loops format the error recovered by run — which this model
+   does not trace: it reports the verdict of the first unprotected site.) *)
 Definition callees_of (t : tbl) (f : string) : list string :=
   flat_map (fun e => match e with Call f' _ c => if String.eqb f' f then [c] else [] | _ => [] end) t.
 
@@ -497,18 +505,30 @@ Definition format_shielded (t : tbl) : bool :=
   (entry_protected_fn t "core.PanicError.Error" || only_sprintf t "core.PanicError.Error") &&
   (entry_protected_fn t "core.PanicError.String" || only_sprintf t "core.PanicError.String").
 
+(* the formatting is itself under a recover: safe for EVERY value, however its methods behave *)
+Definition format_total (t : tbl) : bool :=
+  entry_protected_fn t "core.PanicError.Error" && entry_protected_fn t "core.PanicError.String".
+
+(* what keeps the second panic in, per class of value *)
+Definition format_safe (t : tbl) (f : fault) : bool :=
+  match f with
+  | FHostilePanic => format_shielded t
+  | FNestedHostilePanic => format_total t
+  | _ => true
+  end.
+
 (* WHERE the formatting runs.  Server: Service.Handle encodes the error (ServiceCodec.Encode
    calls err.Error()) after the closure that recovered has returned — the table decides whether
    that call is under a recover of Handle or not.  Provider: Provider.process formats inside
    its deferred function; a panic there leaves process and continues in its caller. *)
 Definition format_phase (c : cell) : option gspec :=
   match c_side c, c_fault c with
-  | Server, FHostilePanic =>
+  | Server, (FHostilePanic | FNestedHostilePanic) =>
       let '(r, ch, needs) := server_request_goroutine (c_tr c) (c_pool c) in
       Some {| g_root := r;
               g_chain := (ch ++ [("core.Service.Handle", "iface:core.ServiceCodec.Encode")])%list;
               g_site := "iface:core.ServiceCodec.Encode"; g_needs := needs |}
-  | Client, FHostilePanic =>
+  | Client, (FHostilePanic | FNestedHostilePanic) =>
       Some {| g_root := RGo "plugins/reverse.Provider.dispatch" "plugins/reverse.Provider.dispatch$1";
               g_chain := [("plugins/reverse.Provider.dispatch$1", "plugins/reverse.Provider.process")];
               g_site := "plugins/reverse.Provider.process"; g_needs := [] |}
@@ -523,7 +543,7 @@ Definition verdict_of (t : tbl) (c : cell) : verdict :=
       match format_phase c with
       | Some g2 =>
           (* the first panic is stopped; formatting its value raises a second one unless shielded *)
-          if contained v && negb (format_shielded t) then panic_verdict t g2 else v
+          if contained v && negb (format_safe t (c_fault c)) then panic_verdict t g2 else v
       | None => v
       end
   end.
@@ -691,7 +711,8 @@ Definition transport_name (tr : transport) : string :=
 Definition side_name (s : side) : string := match s with Server => "server" | Client => "client" end.
 Definition fault_name (f : fault) : string :=
   match f with
-  | FServicePanic => "service-panic" | FHostilePanic => "hostile-panic-value" | FInvokePluginPanic => "invoke-plugin-panic"
+  | FServicePanic => "service-panic" | FHostilePanic => "hostile-panic-value"
+  | FNestedHostilePanic => "nested-hostile-panic-value" | FInvokePluginPanic => "invoke-plugin-panic"
   | FIOPluginPanic => "io-plugin-panic" | FMissingPanic => "missing-method-panic"
   | FDecodeError => "decode-error" | FDecodePanic => "decode-panic"
   | FFrameShort => "frame-short" | FFrameBadCrc => "frame-bad-crc" | FFrameLength => "frame-length"
